@@ -78,7 +78,7 @@ func (w *World) populate(nusers int) []string {
 		w.model[u] = &MUser{PW: pw, Set: set, Admin: admin, Stamp: stamp, Aux: aux, HasNL: true, Supported: true}
 		users = append(users, u)
 	}
-	if r.Choose("pop-tmp", 2) == 1 {
+	if r.Choose("pop-tmp", 2) == 1 && !w.tmpElsewhere {
 		w.fs.PutDir(w.base()+"/.tmp", 0o700)
 	}
 	return users
@@ -334,7 +334,13 @@ type scenario struct {
 	nops   int
 	kinds  []string // op kind per index of the clean execution
 	wlens  []int    // bytes of each write op
+	otherDev bool   // the work area is a symlink to a directory on another device
 }
+
+// scenarioOtherDev lets genScenario put the work area on another device in some runs (C08
+// only): rename from there into the store is impossible (EXDEV), so add / update must fail
+// and leave everything as it was - at every crash point too.
+var scenarioOtherDev bool
 
 func genScenario(r *Run, rr *randRecorder, kinds []string) *scenario {
 	cfg := GenConfig(r, "/srv/whawty/base")
@@ -347,7 +353,19 @@ func genScenario(r *Run, rr *randRecorder, kinds []string) *scenario {
 		}
 		sc.op = opSpec{Kind: "init", User: "root", PW: GenPassword(r), Admin: true}
 	} else {
+		if scenarioOtherDev && (kind == "add" || kind == "update") && r.Choose("tmp-on-other-device", 8) == 0 {
+			sc.otherDev, w.tmpElsewhere = true, true
+		}
 		sc.users = w.populate(1 + r.Choose("nusers", 4))
+		if sc.otherDev {
+			w.fs.Mount("/mnt/scratch")
+			w.fs.PutDir("/mnt/scratch/whawty-tmp", 0o700)
+			w.fs.PutSymlink("/mnt/scratch/whawty-tmp", w.base()+"/.tmp")
+			w.extraOK = func(p string) bool {
+				return strings.HasPrefix(p, "/mnt/scratch/whawty-tmp/") && !strings.Contains(p[len("/mnt/scratch/whawty-tmp/"):], "/")
+			}
+			r.Count("probe:work-area-on-other-device")
+		}
 		switch kind {
 		case "add":
 			sc.op = opSpec{Kind: "add", User: []string{"newbie", "zed", "n.e.w"}[r.Choose("newname", 3)], PW: GenPassword(r), Admin: r.Choose("admin", 2) == 1}
@@ -370,8 +388,18 @@ func genScenario(r *Run, rr *randRecorder, kinds []string) *scenario {
 	w.use(sc.pre.Clone())
 	w.fs.ResetLog()
 	err, _ := w.runOp(sc.op)
-	if err != nil {
+	if err != nil && !sc.otherDev {
 		r.Fail("harness/clean-op-failed", "fault-free %s failed: %v", sc.op, err)
+	}
+	if sc.otherDev {
+		if err == nil {
+			r.Count("probe:write-succeeded-across-devices")
+		} else if diff := simfs.DiffSnap(sc.preSnap, w.fs.Snapshot(w.base())); len(diff) > 0 {
+			r.FailOther("C15", "failure-changed-store/other-device", "%s failed (%v) with the work area on another device and changed the store: %v", sc.op, err, diff)
+		}
+		if ents := w.fs.Names("/mnt/scratch/whawty-tmp"); len(ents) > 0 {
+			r.FailOther("C16", "tmp/residue", "work area not empty after %s (err=%v): %v", sc.op, err, ents)
+		}
 	}
 	sc.nops = w.fs.NOps
 	for _, rec := range w.fs.Log {
